@@ -1112,10 +1112,14 @@ impl Store {
         let filter = OwnedFilter::new(&[], &[event.pubkey()], &[], &tags, None, None, None)?;
         let (authored_events, _redacted) =
             self.find_events(&filter, true, 0, 0, |_| ScreenResult::Match)?;
+        // Copy the ids out first. remove_event() waits for the writer lock, and a store
+        // that gets it before us may enlarge (and thereby move) the event map, after which
+        // the event references must not be touched any more.
+        let authored_ids: Vec<Id> = authored_events.iter().map(|e| e.id()).collect();
         #[cfg(feature = "verif")]
         crate::verif::point("vanish:after_query1");
-        for event in authored_events.iter() {
-            self.remove_event(event.id())?;
+        for id in authored_ids {
+            self.remove_event(id)?;
             #[cfg(feature = "verif")]
             crate::verif::point("vanish:after_remove1");
         }
@@ -1125,10 +1129,11 @@ impl Store {
         let filter = OwnedFilter::new(&[], &[], &[Kind::from_u16(1059)], &tags, None, None, None)?;
         let (giftwrap_events, _redacted) =
             self.find_events(&filter, true, 0, 0, |_| ScreenResult::Match)?;
+        let giftwrap_ids: Vec<Id> = giftwrap_events.iter().map(|e| e.id()).collect();
         #[cfg(feature = "verif")]
         crate::verif::point("vanish:after_query2");
-        for event in giftwrap_events.iter() {
-            self.remove_event(event.id())?;
+        for id in giftwrap_ids {
+            self.remove_event(id)?;
             #[cfg(feature = "verif")]
             crate::verif::point("vanish:after_remove2");
         }
